@@ -813,7 +813,7 @@ pub fn fuzzing_build() -> bool {
 pub fn run_c11(args: &Args) -> i32 {
     let t0 = std::time::Instant::now();
     let n = match args.tier {
-        Tier::Quick => args.cases.unwrap_or(1500),
+        Tier::Quick => args.cases.unwrap_or(3000),
         Tier::Thorough => args.cases.unwrap_or(150_000),
     };
     let fuzzing = fuzzing_build();
